@@ -29,7 +29,7 @@ ASSUMPTIONS = ["numpy's global RNG delivers independent draws, uniform on the re
                "Wilson's theorem, not mechanised (C19_full stays unproved; C19_full_partial is the claim)"]
 TRUSTED = ["Lean.ofReduceBool / Lean.trustCompiler (native_decide) for the four probability tables in Props/C19Tables.lean and "
            "Props/C19Table33.lean, and only there", "the scripted/recording shims on numpy.random.choice / numpy.random.randint"]
-SMALL = {(2, 2): 4, (2, 3): 15, (3, 2): 15, (3, 3): 192}
+SMALL = {(2, 2): 4, (2, 3): 15, (3, 2): 15, (3, 3): 192, (2, 4): 56, (4, 2): 56}
 
 
 class NeedDraw(Exception):
@@ -429,7 +429,7 @@ def run(ctx):
     from concurrent.futures import ProcessPoolExecutor
     bis = []
     with ProcessPoolExecutor(16) as pool:
-        for (r, c) in [(1, 1), (1, 2), (2, 1), (1, 3), (3, 1), (2, 2), (2, 3), (3, 2), (1, 5), (3, 3)] + ([] if ctx.quick else [(2, 4), (4, 2), (2, 5)]):
+        for (r, c) in [(1, 1), (1, 2), (2, 1), (1, 3), (3, 1), (2, 2), (2, 3), (3, 2), (1, 5), (3, 3), (2, 4), (4, 2)] + ([] if ctx.quick else [(2, 5), (5, 2)]):
             row, bad = bisim(ctx, r, c, pool)
             bis.append(row); ctx.traces_validated += row["transitions"]
             for b in bad[:3]:
@@ -449,7 +449,7 @@ def run(ctx):
                                 dict(rows=r, cols=c, tree=T, explored_runs=runs, unexplored_mass=str(U))); break
 
     # ---- 3. exact law of the model (driver) ---------------------------------------------------------------------
-    laws = [(2, 2, 80), (2, 3, 200), (3, 2, 200)] + ([] if ctx.quick else [(3, 3, 300)])
+    laws = [(2, 2, 80), (2, 3, 200), (3, 2, 200)] + ([] if ctx.quick else [(3, 3, 300), (2, 4, 500), (4, 2, 500)])
     rep = ctx.driver.run_parallel([dict(op="C19.law", rows=r, cols=c, n=n) for r, c, n in laws])
     model_rows = []
     for (r, c, n0), o in zip(laws, rep):
